@@ -104,6 +104,116 @@ def fields_with_shapes(rng, kind, rank):
     raise ValueError(kind)
 
 
+def rewrites(ctx, tmpdir):
+    """Bit-exactness when it is not the first save: (a) ONE graph object written twice with a tensor changed in place in
+    between (`w *= 2`, bytes flipped) - the second file must hold the tensor as it is now; (b) a path (or buffer) that
+    already holds a file with the same node and field names, same shapes, but another dtype (wider, narrower, other
+    kind) - the new file must hold the new dtype and bytes."""
+    import nir
+    rng = ctx.rng
+    for _ in range(ctx.n(24, 120)):
+        dt = rng.choice(["<f8", "<f4", "<f2", "<i8", "<i2", "|u1", "<c16"])
+        sh = tuple(rng.randrange(1, 4) for _ in range(rng.randrange(1, 4)))
+        if len(sh) < 2:
+            sh = sh + (2,)
+        seed = rng.randrange(2 ** 32)
+        g0 = np.random.default_rng(seed)
+        mk = lambda shape: (g0.integers(-60, 60, size=shape)).astype(dt)
+        aff = nir.Affine(weight=mk(sh), bias=mk(sh[:-1]))
+        thr = nir.Threshold(threshold=mk(sh[:-1]))
+        inner = nir.NIRGraph(nodes={"aff": aff, "thr": thr}, edges=[("aff", "thr")])
+        graph = nir.NIRGraph(nodes={"sub": inner}, edges=[]) if rng.random() < 0.4 else inner
+        target = rng.choice(["str", "path", "bytesio"])
+        how = rng.choice(["scale", "flip", "assign-slice"])
+        case = {"op": "rewrite_after_inplace_change", "dtype": dt, "shape": list(sh), "seed": seed, "target": target, "how": how}
+        ctx.case(case); ctx.count("rewrite_inplace")
+        sig = {"site": "roundtrip", "what": "stale-after-inplace-change"}
+        if target in ("bytesio", "same-bytesio"):
+            f1 = io.BytesIO()
+        else:
+            p = os.path.join(tmpdir, "rw.nir")
+            if os.path.exists(p):
+                os.remove(p)
+            f1 = p if target == "str" else pathlib.Path(p)
+        try:
+            nir.write(f1, graph)
+            if rng.random() < 0.5:
+                graph.to_dict()                       # an observer in between must not pin anything either
+            for a in (aff.weight, aff.bias, thr.threshold):
+                if how == "scale":
+                    a *= 2
+                elif how == "flip":
+                    a.view("u1")[...] ^= 0x5A
+                    if a.dtype.kind in "fc":
+                        np.nan_to_num(a, copy=False, nan=1.25, posinf=2.0, neginf=-2.0)
+                else:
+                    a[..., 0] = a[..., -1] + 1
+            f2 = f1
+            if target == "bytesio":
+                f2 = io.BytesIO()
+            elif target == "same-bytesio":
+                f1.seek(0)
+            nir.write(f2, graph)
+            if hasattr(f2, "seek"):
+                f2.seek(0)
+            back = nir.read(f2)
+        except Exception as e:  # noqa
+            ctx.violate(case, "re-saving a graph after an in-place parameter change raised", {**sig, "err": err_name(e)},
+                        observed=f"{type(e).__name__}: {e}")
+            continue
+        b = back.nodes["sub"] if "sub" in back.nodes else back
+        for name, fld, want in (("aff", "weight", aff.weight), ("aff", "bias", aff.bias), ("thr", "threshold", thr.threshold)):
+            got = np.asarray(getattr(b.nodes[name], fld))
+            if got.dtype != want.dtype or got.shape != want.shape or got.tobytes() != np.ascontiguousarray(want).tobytes():
+                ctx.violate(case, f"second save of the same graph object does not hold {name}.{fld} as it is now "
+                            "(changed in place after the first save)", sig,
+                            observed={"dtype": str(got.dtype), "first": got.reshape(-1)[:4].tolist()},
+                            required={"dtype": str(want.dtype), "first": np.asarray(want).reshape(-1)[:4].tolist()})
+                break
+    pairs = [("<f8", "<f2"), ("<f8", "<f4"), ("<f8", "<i8"), ("<i8", "|i1"), ("<c16", "<c8"), ("<f4", "<f8"), ("<i8", "<f8"),
+             ("<u8", "<i2"), ("<f8", "|b1"), ("<i4", "<u4")]
+    for _ in range(ctx.n(24, 120)):
+        d1, d2 = rng.choice(pairs)
+        sh = tuple(rng.randrange(1, 4) for _ in range(rng.randrange(0, 3)))
+        seed = rng.randrange(2 ** 32)
+        g0 = np.random.default_rng(seed)
+        vals = {f: g0.integers(0, 2, size=sh) if "b1" in (d1, d2) else g0.integers(-100, 100, size=sh) * (1 if rng.random() < 0.5 else 2 ** 53 + 1)
+                for f in ("tau", "r", "v_leak", "v_threshold")}
+        mk = lambda d: nir.NIRGraph(nodes={"lif": nir.LIF(**{f: np.asarray(v).astype(d) for f, v in vals.items()}),
+                                           "w": nir.Linear(weight=np.asarray(g0.integers(-9, 9, size=(2, 3))).astype(d))},
+                                    edges=[("lif", "lif")])
+        first, second = mk(d1), mk(d2)
+        target = rng.choice(["str", "path"])
+        case = {"op": "rewrite_other_dtype", "first": d1, "second": d2, "shape": list(sh), "seed": seed, "target": target}
+        ctx.case(case); ctx.count("rewrite_other_dtype")
+        sig = {"site": "roundtrip", "what": "residue-of-earlier-dtype"}
+        if target == "same-bytesio":
+            f = io.BytesIO()
+        else:
+            p = os.path.join(tmpdir, "rw2.nir")
+            if os.path.exists(p):
+                os.remove(p)
+            f = p if target == "str" else pathlib.Path(p)
+        try:
+            nir.write(f, first)
+            if hasattr(f, "seek"):
+                f.seek(0)
+            nir.write(f, second)
+            if hasattr(f, "seek"):
+                f.seek(0)
+            back = nir.read(f)
+        except Exception as e:  # noqa
+            ctx.violate(case, "saving over an existing file raised", {**sig, "err": err_name(e)}, observed=f"{type(e).__name__}: {e}")
+            continue
+        for name, flds in (("lif", ("tau", "r", "v_leak", "v_threshold")), ("w", ("weight",))):
+            for fld in flds:
+                want = np.asarray(getattr(second.nodes[name], fld)); got = np.asarray(getattr(back.nodes[name], fld))
+                if got.dtype != want.dtype or got.shape != want.shape or got.tobytes() != want.tobytes():
+                    ctx.violate(case, f"{name}.{fld} saved over an earlier file of dtype {d1} is not read back with its own "
+                                f"dtype {d2} and bytes", sig, observed={"dtype": str(got.dtype)}, required={"dtype": str(want.dtype)})
+                    break
+
+
 KINDS = list(gen.ELEMENTWISE) + ["CubaLIF", "Affine", "Linear", "Conv1d", "Conv2d", "SumPool2d", "AvgPool2d"]
 
 
@@ -190,6 +300,7 @@ def run(ctx):
                                 required={"dtype": str(d0), "shape": list(s0)})
                     break
         big_and_twins(ctx, tmpdir)
+        rewrites(ctx, tmpdir)
         ctx.compare("files", cases, obs, reqs)
     finally:
         import shutil
